@@ -802,6 +802,7 @@ HEADER = '''/- GENERATED by harness/common/pykern.py from /repo's working tree o
    executed on `Float` by the driver (op `kern.eval`), related to the hand-written models over `ℝ` in
    `AeicProofs/Lemmas/KernelBridge.lean`. -/
 import AeicModel.Scalar
+import AeicModel.Vec
 import AeicModel.Generated.Constants
 set_option linter.unusedVariables false
 namespace Aeic.Kern
@@ -907,7 +908,7 @@ def render() -> tuple[str, dict[str, str], Gen]:
     out.append('/-- evaluation by name for the driver: attribute environment, real arguments, boolean arguments -/\n')
     out.append('def evalFloat (name : String) (A : String → Float) (x : Array Float) (b : Array Bool) : Option Float :=\n  match name with\n')
     for k in list(KERNELS) + list(SYM_KERNELS):
-        if k.name not in g.defs:
+        if k.name not in g.defs or is_vector_kernel(k, g):
             continue
         sig = g.sig[k.name]
         xi = bi = 0
@@ -923,11 +924,34 @@ def render() -> tuple[str, dict[str, str], Gen]:
         call = f'{k.name}{a} ' + ' '.join(parts) if (parts or a) else f'({k.name} : Float)'
         out.append(f'  | "{k.name}" => some ({call})\n')
     out.append('  | _ => none\n\n')
+    # vector kernels: array inputs / outputs, lengths, array-valued attributes
+    out.append('/-- evaluation by name of the vector kernels: real, boolean, array and length arguments; array-valued attributes -/\n')
+    out.append('def evalFloatV (name : String) (A : String → Float) (AV : String → List Float) (x : Array Float) (b : Array Bool)\n'
+               '    (v : Array (List Float)) (n : Array Nat) : Option (List Float) :=\n  match name with\n')
+    for k in SYM_KERNELS:
+        if k.name not in g.defs or not is_vector_kernel(k, g):
+            continue
+        idx = {'real': 0, 'bool': 0, 'vec': 0, 'nat': 0}
+        arr = {'real': 'x', 'bool': 'b', 'vec': 'v', 'nat': 'n'}
+        parts = []
+        for _, kind in g.sig[k.name]:
+            parts.append(f'{arr[kind]}[{idx[kind]}]!')
+            idx[kind] += 1
+        a = (' A' if g.uses_attr[k.name] else '') + (' AV' if k.vec_attrs else '')
+        call = f'{k.name}{a} ' + ' '.join(parts)
+        out.append(f'  | "{k.name}" => some ({call})\n' if k.out == 'vec' else f'  | "{k.name}" => some [{call}]\n')
+    out.append('  | _ => none\n\n')
     allk = list(KERNELS) + list(SYM_KERNELS)
     out.append('def kernelNames : List String := [' + ', '.join(f'"{k.name}"' for k in allk if k.name in g.defs) + ']\n')
     out.append('def missingKernels : List String := [' + ', '.join(f'"{k.name}"' for k in allk if k.name not in g.defs) + ']\n')
     out.append('end Aeic.Kern\n')
     return ''.join(out), errors, g
+
+
+def is_vector_kernel(k, g) -> bool:
+    if not isinstance(k, SymKernel):
+        return False
+    return k.out == 'vec' or bool(k.vec_attrs) or any(kind in ('vec', 'nat') for _, kind in g.sig.get(k.name, []))
 
 
 def regenerate() -> dict[str, str]:
@@ -977,6 +1001,11 @@ class SymKernel:
                                        # guard (the kernel describes iterations that run to the end of the body), and the targets are
                                        # read from the state at the end of the body
     cond_consts: dict = field(default_factory=dict)  # source text of a condition -> True / False (the kernel fixes that branch)
+    out: str = 'real'                  # 'real' | 'vec' (the kernel returns a list: vector kernels, third generation)
+    vec_attrs: tuple = ()              # attribute chains that hold arrays ('traj.fuel_mass'): read from `AV : String → List α`
+    cut_expr: dict = field(default_factory=dict)     # source text of an expression -> (input name, 'real'|'vec'|'nat'|'bool')
+    slice_objs: dict = field(default_factory=dict)   # local name of a slice object -> (nat input lo, nat input hi)
+    loop_over: str = ''                # with loop=True: the iterable (source text) of the loop to take instead of `range(...)`
     cut_attr: dict = field(default_factory=dict)     # attribute chain ('pt.ground_speed') -> input name: an input once assigned
 
 
@@ -1022,6 +1051,33 @@ class Uv(V):
 
 
 @dataclass
+class Lv(V):
+    """array value: a pointwise function `body` (in the bound scalar variables `vars`) of the base lists `bases`"""
+    bases: tuple
+    vars: tuple
+    body: object                # R | Bv | Cond
+    deps: frozenset = frozenset()
+
+
+@dataclass
+class Nv(V):
+    e: str                      # Lean Nat expression
+    deps: frozenset = frozenset()
+
+
+@dataclass
+class Cond(V):
+    """`np.where(c, a, b)` whose branches are not both finite reals yet (`np.inf` on one side): resolved when an operation
+    makes both sides finite (`1 / where(c, inf, x)` = `if c then 0 else 1 / x`)"""
+    c: object
+    a: object
+    b: object
+
+
+INF = float('inf')
+
+
+@dataclass
 class Fnv(V):
     fn: object                  # a nested function definition, with the environment it closes over
     env: dict
@@ -1049,6 +1105,9 @@ class Sym:
         self.depth = 0
         self.params: list[str] = []
         self.in_loop = False
+        self.no_bind = 0            # > 0 while evaluating the body of a pointwise lambda (no `let` outside the lambda)
+        self.base_vars: dict[str, str] = {}
+        self.vattr_keys: list[str] = []
 
     # ---- names
     def fresh(self, base: str) -> str:
@@ -1064,6 +1123,8 @@ class Sym:
         return lean_ident(n)
 
     def bind_real(self, base: str, v: R) -> R:
+        if self.no_bind:
+            return v
         n = self.fresh(base)
         self.lets.append((n, 'α', v.e, v.deps))
         return R(n, frozenset([n]))
@@ -1082,17 +1143,226 @@ class Sym:
                 self.attr_keys.append(path)
             return R(f'(A "{path}")')
         if isinstance(v, Cv) and isinstance(v.c, (int, float)) and not isinstance(v.c, bool):
+            if v.c in (INF, -INF):
+                raise Untranslatable('an infinite value reaches a place where a finite real is needed')
             return R(num_lit(v.c))
+        if isinstance(v, Cond):
+            a, b = self.real(v.a, what), self.real(v.b, what)
+            return R(f'(if {v.c.e} then {a.e} else {b.e})', v.c.deps | a.deps | b.deps)
         raise Untranslatable(f'not a real: {what or type(v).__name__}' + (f' ({v.why})' if isinstance(v, Uv) else ''))
 
     def cond(self, v: V, what='') -> Bv | bool:
         if isinstance(v, Bv):
+            return v
+        if isinstance(v, Lv) and isinstance(v.body, Bv):
             return v
         if isinstance(v, Cv) and isinstance(v.c, bool):
             return v.c
         if isinstance(v, Cv) and v.c is None:
             return False
         raise Untranslatable(f'not a condition: {what}')
+
+
+    # ---- arrays (third generation): pointwise functions of base lists, materialised by List.map / zipWith
+    def var_for(self, base_expr: str) -> str:
+        if base_expr not in self.base_vars:
+            self.base_vars[base_expr] = f'e__{len(self.base_vars)}'
+        return self.base_vars[base_expr]
+
+    def lv_of_base(self, expr: str, deps=frozenset()) -> Lv:
+        v = self.var_for(expr)
+        return Lv((expr,), (v,), R(v), frozenset(deps))
+
+    @staticmethod
+    def vdeps(v) -> frozenset:
+        if isinstance(v, Cond):
+            return Sym.vdeps(v.c) | Sym.vdeps(v.a) | Sym.vdeps(v.b)
+        return getattr(v, 'deps', frozenset())
+
+    def mat(self, v: V, what='') -> tuple[str, frozenset]:
+        """Lean expression of type `List α` for an array value"""
+        if not isinstance(v, Lv):
+            raise Untranslatable(f'not an array: {what or type(v).__name__}' + (f' ({v.why})' if isinstance(v, Uv) else ''))
+        body = v.body
+        if isinstance(body, Cond):
+            body = self.real(body, what)
+        if not isinstance(body, R):
+            raise Untranslatable('an array of conditions where an array of reals is needed')
+        d = frozenset(v.deps) | body.deps
+        if len(v.bases) == 1 and body.e == v.vars[0]:
+            return v.bases[0], d
+        if len(v.bases) == 1:
+            return f'(List.map (fun {v.vars[0]} => {body.e}) {v.bases[0]})', d
+        if len(v.bases) == 2:
+            return f'(List.zipWith (fun {v.vars[0]} {v.vars[1]} => {body.e}) {v.bases[0]} {v.bases[1]})', d
+        if len(v.bases) == 3:
+            return (f'(List.zipWith3 (fun {v.vars[0]} {v.vars[1]} {v.vars[2]} => {body.e}) {v.bases[0]} {v.bases[1]} '
+                    f'{v.bases[2]})'), d
+        raise Untranslatable('pointwise expression over more than three arrays')
+
+    def pointwise(self, fn, *args) -> V:
+        """apply the scalar operation `fn` to values any of which may be arrays (numpy broadcasting of scalars)"""
+        if not any(isinstance(a, Lv) for a in args):
+            return fn(*args)
+        bases, vars_, deps = [], [], frozenset()
+        for a in args:
+            if isinstance(a, Lv):
+                for b, v in zip(a.bases, a.vars):
+                    if b not in bases:
+                        bases.append(b)
+                        vars_.append(v)
+                deps |= a.deps
+        self.no_bind += 1
+        try:
+            body = fn(*[(a.body if isinstance(a, Lv) else a) for a in args])
+        finally:
+            self.no_bind -= 1
+        return Lv(tuple(bases), tuple(vars_), body, deps | self.vdeps(body))
+
+    @staticmethod
+    def is_inf(v) -> bool:
+        return isinstance(v, Cv) and isinstance(v.c, float) and v.c in (INF, -INF)
+
+    def mk_cond(self, c: Bv, a: V, b: V) -> V:
+        try:
+            ra, rb = self.real(a), self.real(b)
+            if ra.e == rb.e:
+                return ra
+            return self.bind_real('sel', R(f'(if {c.e} then {ra.e} else {rb.e})', c.deps | ra.deps | rb.deps))
+        except Untranslatable:
+            return Cond(c, a, b)
+
+    def sbin(self, op, a: V, b: V, ta='', tb='') -> V:
+        """scalar `a op b` (reals; `np.where` results with an infinite branch are resolved by division)"""
+        if isinstance(b, Cond):
+            return self.mk_cond(b.c, self.sbin(op, a, b.a, ta, tb), self.sbin(op, a, b.b, ta, tb))
+        if isinstance(a, Cond):
+            return self.mk_cond(a.c, self.sbin(op, a.a, b, ta, tb), self.sbin(op, a.b, b, ta, tb))
+        if self.is_inf(b) and isinstance(op, ast.Div) and not self.is_inf(a):
+            self.real(a, ta)
+            return R('(Lit.dec (0) 0 : α)')
+        ra = self.real(a, ta)
+        rb = self.real(b, tb)
+        if isinstance(op, ast.Pow):
+            return R(f'(Transc.pow {ra.e} {rb.e})', ra.deps | rb.deps)
+        ops = {ast.Add: '+', ast.Sub: '-', ast.Mult: '*', ast.Div: '/'}
+        if type(op) in ops:
+            return R(f'({ra.e} {ops[type(op)]} {rb.e})', ra.deps | rb.deps)
+        raise Untranslatable(f'operator {type(op).__name__}')
+
+    def spow_const(self, a: V, c, ta='') -> V:
+        r = self.real(a, ta)
+        if c == 2:
+            return R(f'({r.e} * {r.e})', r.deps)
+        return R(f'(Transc.sqrt {r.e})', r.deps)
+
+    def nat_of(self, v: V, node: ast.AST | None = None) -> Nv:
+        if isinstance(v, Nv):
+            return v
+        if node is not None and isinstance(node, ast.Constant) and isinstance(node.value, int) and node.value >= 0:
+            return Nv(str(node.value))
+        raise Untranslatable('not a natural number')
+
+    def nat_binop(self, e: ast.BinOp, a: V, b: V) -> V:
+        x, y = self.nat_of(a, e.left), self.nat_of(b, e.right)
+        if isinstance(e.op, ast.Sub):
+            return Nv(f'({x.e} - {y.e})', x.deps | y.deps)    # truncated: the kernel is read for lengths where it is ≥ 0
+        if isinstance(e.op, ast.Add):
+            return Nv(f'({x.e} + {y.e})', x.deps | y.deps)
+        raise Untranslatable('arithmetic on lengths')
+
+    def subst(self, v, m: dict):
+        import re as _re
+
+        def tx(t: str) -> str:
+            return _re.sub(r'\be__\d+\b', lambda k: m.get(k.group(0), k.group(0)), t)
+        if isinstance(v, R):
+            return R(tx(v.e), v.deps)
+        if isinstance(v, Bv):
+            return Bv(tx(v.e), v.deps)
+        if isinstance(v, Cond):
+            return Cond(self.subst(v.c, m), self.subst(v.a, m), self.subst(v.b, m))
+        return v
+
+    def vec_subscript(self, base: Lv, sl: ast.AST, env: dict) -> V:
+        try:
+            X, d = self.mat(base, 'subscripted array')
+        except Untranslatable:
+            # an array that cannot be written down yet (infinite entries): a slice of a pointwise expression is the pointwise
+            # expression of the slices of its arguments
+            if not isinstance(sl, ast.Slice):
+                raise
+            parts = [self.vec_subscript(self.lv_of_base(b, base.deps), sl, env) for b in base.bases]
+            ren = {old: p.vars[0] for old, p in zip(base.vars, parts)}
+            return Lv(tuple(p.bases[0] for p in parts), tuple(p.vars[0] for p in parts), self.subst(base.body, ren),
+                      frozenset().union(*[p.deps for p in parts]) | base.deps)
+
+        def is_c(n, val):
+            if val is None:
+                return n is None
+            if isinstance(n, ast.Constant):
+                return n.value == val
+            return (isinstance(n, ast.UnaryOp) and isinstance(n.op, ast.USub) and isinstance(n.operand, ast.Constant)
+                    and -n.operand.value == val)
+        if isinstance(sl, ast.Slice):
+            if is_c(sl.lower, 1) and sl.upper is None and sl.step is None:
+                return self.lv_of_base(f'(List.tail {X})', d)
+            if sl.lower is None and is_c(sl.upper, -1) and sl.step is None:
+                return self.lv_of_base(f'(List.dropLast {X})', d)
+            if sl.lower is None and sl.upper is None and is_c(sl.step, -1):
+                return self.lv_of_base(f'(List.reverse {X})', d)
+            if sl.step is None and sl.lower is None and sl.upper is not None:
+                n = self.nat_of(self._ev(sl.upper, env), sl.upper)
+                return self.lv_of_base(f'(List.take {n.e} {X})', d | n.deps)
+            if sl.step is None and sl.upper is None and sl.lower is not None:
+                n = self.nat_of(self._ev(sl.lower, env), sl.lower)
+                return self.lv_of_base(f'(List.drop {n.e} {X})', d | n.deps)
+            raise Untranslatable(f'slice {ast.unparse(sl)}')
+        if is_c(sl, 0):
+            return R(f'(Vec.head0 {X})', d)
+        if is_c(sl, -1):
+            return R(f'(Vec.last0 {X})', d)
+        if isinstance(sl, ast.Name) and sl.id in self.spec.slice_objs:
+            lo, hi = self.spec.slice_objs[sl.id]
+            return self.lv_of_base(f'(Vec.slice {lean_ident(lo)} {lean_ident(hi)} {X})', d | {lo, hi})
+        raise Untranslatable(f'array index {ast.unparse(sl)}')
+
+    def vec_store(self, base: Lv, sl: ast.AST, v: V, env: dict) -> Lv:
+        X, d = self.mat(base, 'array stored into')
+
+        def is_c(n, val):
+            if val is None:
+                return n is None
+            if isinstance(n, ast.Constant):
+                return n.value == val
+            return (isinstance(n, ast.UnaryOp) and isinstance(n.op, ast.USub) and isinstance(n.operand, ast.Constant)
+                    and -n.operand.value == val)
+        if not isinstance(sl, ast.Slice) or sl.step is not None:
+            raise Untranslatable(f'array store {ast.unparse(sl)}')
+        if is_c(sl.lower, 1) and sl.upper is None:
+            Y, dy = self.mat(v, 'stored value')
+            return self.lv_of_base(f'(Vec.setTail {X} {Y})', d | dy)
+        if sl.lower is None and is_c(sl.upper, -1):
+            Y, dy = self.mat(v, 'stored value')
+            return self.lv_of_base(f'(Vec.setInit {X} {Y})', d | dy)
+        zero = isinstance(v, R) and v.e.replace(' ', '') in ('(Lit.dec(0)0:α)', '(Lit.dec(0)1:α)', '(Lit.dec(00)1:α)')
+        if zero and sl.lower is None and sl.upper is not None:
+            up = self._ev(sl.upper, env)
+            n = self.slice_bound(sl.upper, up)
+            return self.lv_of_base(f'(Vec.zeroPrefix {n.e} {X})', d | n.deps)
+        if zero and sl.upper is None and sl.lower is not None:
+            lo = self._ev(sl.lower, env)
+            n = self.slice_bound(sl.lower, lo)
+            return self.lv_of_base(f'(Vec.zeroFrom {n.e} {X})', d | n.deps)
+        raise Untranslatable(f'array store {ast.unparse(sl)}')
+
+    def slice_bound(self, node: ast.AST, v: V) -> Nv:
+        """`idx_slice.start` / `.stop` of a declared slice object, or a length"""
+        ch = self.chain(node) if isinstance(node, ast.Attribute) else None
+        if ch and len(ch) == 2 and ch[0] in self.spec.slice_objs and ch[1] in ('start', 'stop'):
+            n = self.spec.slice_objs[ch[0]][0 if ch[1] == 'start' else 1]
+            return Nv(lean_ident(n), frozenset([n]))
+        return self.nat_of(v, node)
 
     # ---- module context helpers
     def enter(self, mod: Module, cls: str | None, engine: str | None = None):
@@ -1107,6 +1377,17 @@ class Sym:
 
     def _ev(self, e: ast.AST, env: dict) -> V:
         src = self.mod.src
+        if self.spec.cut_expr and not isinstance(e, ast.Constant):
+            text = ast.unparse(e)
+            if text in self.spec.cut_expr:
+                n, kind = self.spec.cut_expr[text]
+                if kind == 'vec':
+                    return self.lv_of_base(lean_ident(n), frozenset([n]))
+                if kind == 'nat':
+                    return Nv(lean_ident(n), frozenset([n]))
+                if kind == 'bool':
+                    return Bv(f'({lean_ident(n)} = true)', frozenset([n]))
+                return R(lean_ident(n), frozenset([n]))
         if isinstance(e, ast.Constant):
             if isinstance(e.value, (int, float)) and not isinstance(e.value, bool):
                 return R(lit(e, src))
@@ -1121,6 +1402,13 @@ class Sym:
             ch = self.chain(e)
             if ch and '.'.join(ch) in env:           # attribute stores on self: env['self.x']
                 return env['.'.join(ch)]
+            if ch and ch[0] in ('np', 'numpy', 'math') and ch[1:] == ['inf'] and ch[0] not in env:
+                return Cv(INF)
+            if ch and '.'.join(ch) in self.spec.vec_attrs:
+                key = '.'.join(ch)
+                if key not in self.vattr_keys:
+                    self.vattr_keys.append(key)
+                return self.lv_of_base(f'(AV "{key}")')
             base = self._ev(e.value, env)
             if isinstance(base, Ov):
                 return Ov(base.path + '.' + e.attr)
@@ -1132,7 +1420,11 @@ class Sym:
                 return Cv(f'{base.c}.{e.attr}')      # enum member
             raise Untranslatable(f'attribute {e.attr} of {type(base).__name__}')
         if isinstance(e, ast.Subscript):
+            if ast.unparse(e) in env:                 # `indices[species]` inside a generic loop iteration: a variable of its own
+                return env[ast.unparse(e)]
             base = self._ev(e.value, env)
+            if isinstance(base, Lv):
+                return self.vec_subscript(base, e.slice, env)
             if isinstance(base, Cv) and isinstance(base.c, str) and base.c[0:1].isupper():
                 return base                           # generic alias such as SpeciesValues[float]
             key = self._ev(e.slice, env)
@@ -1150,8 +1442,10 @@ class Sym:
             raise Untranslatable('subscript')
         if isinstance(e, ast.UnaryOp):
             if isinstance(e.op, ast.USub):
-                r = self.real(self._ev(e.operand, env), 'operand of -')
-                return R(f'(-{r.e})', r.deps)
+                def neg(x):
+                    r = self.real(x, 'operand of -')
+                    return R(f'(-{r.e})', r.deps)
+                return self.pointwise(neg, self._ev(e.operand, env))
             if isinstance(e.op, ast.UAdd):
                 return self._ev(e.operand, env)
             if isinstance(e.op, (ast.Not, ast.Invert)):
@@ -1160,19 +1454,17 @@ class Sym:
         if isinstance(e, ast.BinOp):
             if isinstance(e.op, (ast.BitAnd, ast.BitOr)):
                 return self.boolop('∧' if isinstance(e.op, ast.BitAnd) else '∨', [e.left, e.right], env)
-            a = self.real(self._ev(e.left, env), ast.unparse(e.left))
-            if isinstance(e.op, ast.Pow):
-                if isinstance(e.right, ast.Constant) and e.right.value == 2:
-                    return R(f'({a.e} * {a.e})', a.deps)
-                if isinstance(e.right, ast.Constant) and e.right.value == 0.5:
-                    return R(f'(Transc.sqrt {a.e})', a.deps)
-                b = self.real(self._ev(e.right, env), ast.unparse(e.right))
-                return R(f'(Transc.pow {a.e} {b.e})', a.deps | b.deps)
-            b = self.real(self._ev(e.right, env), ast.unparse(e.right))
-            ops = {ast.Add: '+', ast.Sub: '-', ast.Mult: '*', ast.Div: '/'}
-            if type(e.op) in ops:
-                return R(f'({a.e} {ops[type(e.op)]} {b.e})', a.deps | b.deps)
-            raise Untranslatable(f'operator {type(e.op).__name__}')
+            av = self._ev(e.left, env)
+            tl, tr = ast.unparse(e.left), ast.unparse(e.right)
+            if isinstance(e.op, ast.Pow) and isinstance(e.right, ast.Constant) and e.right.value in (2, 0.5) \
+                    and not isinstance(e.right.value, bool):
+                return self.pointwise(lambda x: self.spow_const(x, e.right.value, tl), av)
+            if not isinstance(av, (Lv, Nv, Cond)):
+                self.real(av, tl)                      # (a left operand that is not a number fails before the right one is read)
+            bv = self._ev(e.right, env)
+            if isinstance(av, Nv) or isinstance(bv, Nv):
+                return self.nat_binop(e, av, bv)
+            return self.pointwise(lambda x, y: self.sbin(e.op, x, y, tl, tr), av, bv)
         if isinstance(e, ast.BoolOp):
             return self.boolop('∧' if isinstance(e.op, ast.And) else '∨', e.values, env)
         if isinstance(e, ast.Compare) and len(e.ops) == 1:
@@ -1293,7 +1585,12 @@ class Sym:
             raise Untranslatable(f'membership test {ast.unparse(e)}')
         if isinstance(lv, Cv) and isinstance(rv, Cv) and not isinstance(lv.c, (int, float)) and isinstance(op, (ast.Eq, ast.NotEq)):
             return Cv((lv.c == rv.c) == isinstance(op, ast.Eq))
-        a, b = self.real(lv, ast.unparse(e.left)), self.real(rv, ast.unparse(e.comparators[0]))
+        if isinstance(lv, Lv) or isinstance(rv, Lv):
+            return self.pointwise(lambda x, y: self.scmp(op, x, y, ast.unparse(e.left), ast.unparse(e.comparators[0])), lv, rv)
+        return self.scmp(op, lv, rv, ast.unparse(e.left), ast.unparse(e.comparators[0]))
+
+    def scmp(self, op, lv: V, rv: V, tl='', tr='') -> V:
+        a, b = self.real(lv, tl), self.real(rv, tr)
         d = a.deps | b.deps
         if isinstance(op, ast.LtE):
             return Bv(f'({a.e} ≤ {b.e})', d)
@@ -1310,6 +1607,10 @@ class Sym:
         raise Untranslatable('comparison')
 
     def merge(self, c: Bv, a: V, b: V, base: str) -> V:
+        if isinstance(a, Lv) or isinstance(b, Lv):
+            return self.pointwise(lambda x, y: self.merge(c, x, y, base), a, b)
+        if self.is_inf(a) or self.is_inf(b) or isinstance(a, Cond) or isinstance(b, Cond):
+            return self.mk_cond(c, a, b)
         if isinstance(a, Dv) and isinstance(b, Dv):
             out = {}
             for k in list(a.d) + [k for k in b.d if k not in a.d]:
@@ -1341,9 +1642,54 @@ class Sym:
             c = self.test(args[0], env)
             if isinstance(c, bool):
                 return self._ev(args[1] if c else args[2], env)
+            if isinstance(c, Lv):
+                return self.pointwise(lambda cc, x, y: self.merge(cc, x, y, 'sel'), c, self._ev(args[1], env), self._ev(args[2], env))
             return self.merge(c, self._ev(args[1], env), self._ev(args[2], env), 'sel')
+        if isinstance(f, ast.Name) and f.id == 'len' and len(args) == 1 and 'len' not in env:
+            X, d = self.mat(self._ev(args[0], env), ast.unparse(args[0]))
+            return Nv(f'(List.length {X})', d)
+        if isinstance(f, ast.Name) and f.id == 'cumulative_trapezoid' and len(args) == 1 and f.id not in env:
+            kw = {k.arg: k.value for k in e.keywords}
+            if set(kw) != {'dx'}:
+                raise Untranslatable('cumulative_trapezoid: only the form (y, dx=…) is read')
+            Y, dy = self.mat(self._ev(args[0], env), 'integrand')
+            dx = self._ev(kw['dx'], env)
+            if isinstance(dx, Lv):
+                D, dd = self.mat(dx, 'dx')
+                return self.lv_of_base(f'(Vec.cumtrapz {Y} {D})', dy | dd)
+            r = self.real(dx, 'dx')
+            return self.lv_of_base(f'(Vec.cumtrapzS {Y} {r.e})', dy | r.deps)
+        if npf in ('zeros_like', 'sum', 'broadcast_to', 'full') and args:
+            a0 = self._ev(args[0], env)
+            if npf == 'zeros_like':
+                X, d = self.mat(a0, 'zeros_like')
+                return self.lv_of_base(f'(Vec.zerosLike {X})', d)
+            if npf == 'sum' and len(args) == 1 and not e.keywords:
+                X, d = self.mat(a0, 'sum')
+                return R(f'(Vec.sum {X})', d)
+            if npf == 'broadcast_to' and len(args) == 2:
+                if isinstance(a0, Lv):
+                    return a0          # numpy checks that the shape is the one asked for; the reading assumes it
+                shp = self._ev(args[1], env)
+                if isinstance(shp, Tv) and len(shp.items) == 1:
+                    n, r = self.nat_of(shp.items[0]), self.real(a0, 'broadcast value')
+                    return self.lv_of_base(f'(Vec.bcast {r.e} {n.e})', n.deps | r.deps)
+            if npf == 'full' and len(args) >= 2:
+                n, r = self.nat_of(a0, args[0]), self.real(self._ev(args[1], env), 'fill value')
+                return self.lv_of_base(f'(Vec.bcast {r.e} {n.e})', n.deps | r.deps)
+            raise Untranslatable(f'numpy function {npf} in this form')
+        vs = [self._ev(a, env) for a in args] if npf is not None else []
+        if npf is not None and any(isinstance(v, Lv) for v in vs):
+            if npf in NP_UNARY and len(vs) == 1:
+                return self.pointwise(lambda x: (lambda r: R(f'({NP_UNARY[npf]} {r.e})', r.deps))(self.real(x)), vs[0])
+            if npf in ('maximum', 'minimum') and len(vs) == 2:
+                fn = 'smax' if npf == 'maximum' else 'smin'
+                return self.pointwise(lambda x, y: (lambda a, b: R(f'({fn} {a.e} {b.e})', a.deps | b.deps))(self.real(x), self.real(y)), *vs)
+            if npf in ('asarray', 'array', 'float64'):
+                return vs[0]
+            raise Untranslatable(f'numpy function {npf} on arrays')
         if npf is not None:
-            rs = [self.real(self._ev(a, env), ast.unparse(a)) for a in args]
+            rs = [self.real(v, ast.unparse(a)) for v, a in zip(vs, args)]
             d = frozenset().union(*[r.deps for r in rs]) if rs else frozenset()
             if npf in NP_UNARY and len(rs) == 1:
                 return R(f'({NP_UNARY[npf]} {rs[0].e})', d)
@@ -1636,7 +1982,19 @@ class Sym:
                 env[key] = self.named(key.replace('.', '_'), v)
             return
         if isinstance(t, ast.Subscript):
+            if self.in_loop and isinstance(t.value, ast.Name) and isinstance(t.slice, ast.Name) \
+                    and isinstance(env.get(t.slice.id), Uv) and env[t.slice.id].why == 'loop variable':
+                key = ast.unparse(t)                  # `emissions[species] = …` in a generic iteration: a variable of its own
+                env[key] = self.named(key.replace('[', '_').replace(']', ''), v)
+                return
             base = self.ev(t.value, env)
+            if isinstance(base, Lv):
+                key = t.value.id if isinstance(t.value, ast.Name) else ast.unparse(t.value)
+                try:
+                    env[key] = self.named(key.replace('[', '_').replace(']', '').replace('.', '_'), self.vec_store(base, t.slice, v, env))
+                except Untranslatable as ex:
+                    env[key] = Uv(str(ex))
+                return
             if isinstance(base, R) and isinstance(t.value, ast.Name):
                 try:
                     c = self.test(t.slice, env)
@@ -1657,6 +2015,16 @@ class Sym:
                 env[b.id] = Uv('subscript store with a non-constant key')
 
     def named(self, base: str, v: V) -> V:
+        if isinstance(v, Lv) and not self.no_bind:
+            try:
+                X, d = self.mat(v, base)
+            except Untranslatable:
+                return v                  # e.g. an array with infinite entries: stays a pointwise expression until it is divided by
+            if X.isidentifier() or X.startswith('(AV "'):
+                return v
+            n = self.fresh(base)
+            self.lets.append((n, 'List α', X, d))
+            return self.lv_of_base(n, frozenset([n]))
         if isinstance(v, R) and not (v.e.isidentifier() or v.e.startswith('(Lit.dec') or v.e.startswith('(A "')):
             return self.bind_real(base, v)
         return v
@@ -1824,7 +2192,13 @@ class Sym:
             elif p in spec.consts:
                 env[p] = self.ev_in_module(mod, ast.parse(spec.consts[p], mode='eval').body)
             elif p in dict(inputs):
-                env[p] = R(lean_ident(p), frozenset([p])) if dict(inputs)[p] == 'real' else Bv(f'({lean_ident(p)} = true)', frozenset([p]))
+                kind = dict(inputs)[p]
+                if kind == 'vec':
+                    env[p] = self.lv_of_base(lean_ident(p), frozenset([p]))
+                elif kind == 'nat':
+                    env[p] = Nv(lean_ident(p), frozenset([p]))
+                else:
+                    env[p] = R(lean_ident(p), frozenset([p])) if kind == 'real' else Bv(f'({lean_ident(p)} = true)', frozenset([p]))
             else:
                 env[p] = Ov(p)
         defaults = fn.args.defaults
@@ -1859,7 +2233,11 @@ class Sym:
                                   f'{sorted(v.d) if isinstance(v, Dv) else type(v).__name__}'
                                   + (f' ({v.why})' if isinstance(v, Uv) else ''))
         try:
-            r = self.real(v, spec.target)
+            if spec.out == 'vec':
+                X, d = self.mat(v, spec.target)
+                r = R(X, d)
+            else:
+                r = self.real(v, spec.target)
         except Untranslatable as ex:
             raise KernelError(f'{spec.name}: target {spec.target} of {spec.file}:{spec.func} is not translatable: {ex}')
         # liveness
@@ -1870,11 +2248,14 @@ class Sym:
                 keep.append((name, ty, expr))
                 need |= set(deps)
         keep.reverse()
-        binders = ''.join(f' ({lean_ident(n)} : {"Bool" if k == "bool" else "α"})' for n, k in inputs)
+        TY = {'bool': 'Bool', 'vec': 'List α', 'nat': 'Nat', 'real': 'α'}
+        binders = ''.join(f' ({lean_ident(n)} : {TY[k]})' for n, k in inputs)
         binders += ''.join(f' ({lean_ident(n)} : Bool)' for n in self.spec.cond_inputs.values())
         a = '' if (optional_env and not self.attr_keys) else ' (A : String → α)'
+        if spec.vec_attrs:
+            a += ' (AV : String → List α)'
         body = ''.join(f'  let {n} : {ty} := {ex}\n' for n, ty, ex in keep)
-        text = f'def {spec.name}{a}{binders} : α :=\n{body}  {r.e}\n'
+        text = f'def {spec.name}{a}{binders} : {"List α" if spec.out == "vec" else "α"} :=\n{body}  {r.e}\n'
         sig = inputs + [(n, 'bool') for n in self.spec.cond_inputs.values()]
         return text, sig, [k for k in self.attr_keys if f'(A "{k}")' in text]
 
@@ -1920,6 +2301,17 @@ for _t in ('pt.fuel_mass', 'pt.aircraft_mass', 'pt.ground_distance', 'pt.flight_
 SYM_KERNELS.append(SymKernel('crz_step_ground_speed_still_air', LEG, 'LegacyBuilder.fly_cruise',
                              ['ground_distance_step'], 'pt.ground_speed',
                              cond_consts={'self.weather is not None': False}, **_CRZ))
+# vector kernels (third generation): the two cumulative-trapezoid mass updates of the BADA fuel-burn base class (C19)
+_FB = 'BADA/fuel_burn_base.py'
+_VIN = [('mass', 'vec'), ('specific_ground_range', 'vec')]
+SYM_KERNELS.append(SymKernel('mass_update_fwd', _FB, 'BaseFuelBurnModel.update_mass_vector',
+                             _VIN + [('segment_distance', 'vec')], 'return', out='vec'))
+SYM_KERNELS.append(SymKernel('mass_update_fwd_scalar_dx', _FB, 'BaseFuelBurnModel.update_mass_vector',
+                             _VIN + ['segment_distance'], 'return', out='vec'))
+SYM_KERNELS.append(SymKernel('mass_update_bwd', _FB, 'BaseFuelBurnModel.update_mass_vector_backward',
+                             _VIN + [('segment_distance', 'vec')], 'return', out='vec'))
+SYM_KERNELS.append(SymKernel('mass_update_bwd_scalar_dx', _FB, 'BaseFuelBurnModel.update_mass_vector_backward',
+                             _VIN + ['segment_distance'], 'return', out='vec'))
 SYM_KERNELS.append(SymKernel('weather_ground_speed', 'weather.py', 'Weather.get_ground_speed',
                              ['true_airspeed', 'heading_rad', 'wind_u', 'wind_v'], 'return',
                              cut=('heading_rad', 'wind_u', 'wind_v')))
@@ -1928,12 +2320,13 @@ SYM_KERNELS.append(SymKernel('weather_ground_speed', 'weather.py', 'Weather.get_
 def translate_sym(g: Gen, errors: dict):
     for k in SYM_KERNELS:
         try:
-            text, sig, keys = Sym(k).translate()
+            text, sig, keys = Sym(k).translate(optional_env=bool(k.out == 'vec' or k.vec_attrs or
+                                                                  any(not isinstance(i, str) and i[1] in ('vec', 'nat') for i in k.inputs)))
             tgt = f', target `{k.target}`'
             cs = ''.join(f' [{p} = {v}]' for p, v in k.consts.items())
             g.defs[k.name] = f'/-- `{k.file}`: `{k.func}`{tgt}{cs} (symbolic evaluation) -/\n' + text
             g.sig[k.name] = sig
-            g.uses_attr[k.name] = True
+            g.uses_attr[k.name] = '(A : String → α)' in text.split(':=')[0]
             g.attr_keys[k.name] = keys
             g.origin[k.name] = f'{k.file}:{k.func}'
         except (KernelError, Untranslatable, OSError, SyntaxError, KeyError, IndexError, AttributeError, TypeError) as ex:
